@@ -194,32 +194,7 @@ def run(ctx, w):
                   (prim, (" (unclamped use: %s)" % w.tstr(prim, bad[0][1])) if bad else ""), loc=w.stmt_loc(prim, bad[0][0]) if bad else w.fn_loc(prim),
                   sample={"fn": prim, "clamped": okc, "unclamped_uses": len(bad)})
 
-    # ---- W7 alternate buffers have no scrollback ------------------------------------------------------
-    ctx.rule("W7", "every buffer created for the alternate screen is built with scrollback limit Some(0); primary-role buffers take the configured limit")
-    some0 = ("adt", "core::option::Option", "Some", ("0",), (("const", 0),))
-    n7 = 0
-    for fn in sorted(w.bodies):
-        if S._impl_of(fn) != S.term_ty:
-            continue
-        T = w.terms(fn)
-        b = w.body(fn)
-        writes_alt = any(True for _ in [0])
-        for cs in E.call_sites(fn, S.buffer_ctor):
-            # role: where does the new buffer go?
-            dest = cs.term["dest"]
-            role = buffer_role(w, S, R, fn, cs)
-            lim = WD.strip_names(T.operand(cs.term["args"][2], cs.point))
-            n7 += 1
-            if role == "alternate":
-                ctx.check(lim == some0, "W7", "%s:%s" % (fn, shared.site_key(w, fn, cs.point)), "%s creates an alternate-screen buffer with scrollback limit %s; the alternate screen keeps none" % (fn, w.tstr(fn, lim)),
-                          loc=w.site_loc(cs), sample={"fn": fn, "role": role, "limit": w.tstr(fn, lim)})
-            elif role == "primary":
-                ok = lim[0] == "load" and (lim[1][-1] == "scrollback_limit" or lim[1][0].startswith("arg"))
-                ctx.check(ok and lim != some0, "W7", "%s:%s" % (fn, shared.site_key(w, fn, cs.point)), "%s creates a primary-screen buffer with limit %s instead of the configured one" % (fn, w.tstr(fn, lim)),
-                          loc=w.site_loc(cs), sample={"fn": fn, "role": role, "limit": w.tstr(fn, lim)})
-            else:
-                ctx.violation("W7", "%s:%s" % (fn, shared.site_key(w, fn, cs.point)), "cannot tell the role of the buffer created in %s" % fn, loc=w.site_loc(cs))
-    ctx.floor("W7", 3, "buffer construction sites")
+    role_limits(ctx, w, S, R, "W7")
 
     # ---- W9 ---------------------------------------------------------------------------------------------
     ctx.rule("W9", "in the scroll-up primitive existing rows are overwritten / rotated only when the range does not start at row 0; every path decides that first")
@@ -272,6 +247,9 @@ def run(ctx, w):
     if T14.ok:
         c14.view_rules(ctx, w, S, R, T14)
     shared.stale_operands(ctx, w, S, R, "W11", ["Il", "Dl", "Su", "Sd", "Lf", "Ri"])
+    from rules import prims
+    prims.scroll_primitives(ctx, w, S, "W12")
+    ctx.floor("W12", 500, "scroll primitive evaluations")
 
 
 def c15_strip_clone(t):
@@ -397,3 +375,29 @@ def linefeed_rule(ctx, w, S, R, up):
                       "%s moves the cursor down a row on a path where it may be on the bottom margin (guards: %s): the cursor walks out of the scroll region instead of scrolling it" % (f, [(w.tstr(f, c), v) for c, v in gs]),
                       loc=w.site_loc(cs), sample={"fn": f, "guards": [(w.tstr(f, c), v) for c, v in gs]})
     ctx.floor("W10", 4, "line-feed sites")
+
+
+def role_limits(ctx, w, S, R, rule):
+    """Every buffer built for the alternate role has scrollback limit Some(0);
+    primary-role buffers take the configured limit (constructor AND hard reset)."""
+    E = w.E
+    ctx.rule(rule, "every buffer created for the alternate screen is built with scrollback limit Some(0); primary-role buffers take the configured limit")
+    some0 = ("adt", "core::option::Option", "Some", ("0",), (("const", 0),))
+    for fn in sorted(w.bodies):
+        if S._impl_of(fn) != S.term_ty:
+            continue
+        T = w.terms(fn)
+        for cs in E.call_sites(fn, S.buffer_ctor):
+            role = buffer_role(w, S, R, fn, cs)
+            lim = WD.strip_names(T.operand(cs.term["args"][2], cs.point))
+            key = "%s:%s" % (fn, shared.site_key(w, fn, cs.point))
+            if role == "alternate":
+                ctx.check(lim == some0, rule, key, "%s creates an alternate-screen buffer with scrollback limit %s; the alternate screen keeps none" % (fn, w.tstr(fn, lim)),
+                          loc=w.site_loc(cs), sample={"fn": fn, "role": role, "limit": w.tstr(fn, lim)})
+            elif role == "primary":
+                ok = lim[0] == "load" and (lim[1][-1] == "scrollback_limit" or lim[1][0].startswith("arg"))
+                ctx.check(ok and lim != some0, rule, key, "%s creates a primary-screen buffer with limit %s instead of the configured one" % (fn, w.tstr(fn, lim)),
+                          loc=w.site_loc(cs), sample={"fn": fn, "role": role, "limit": w.tstr(fn, lim)})
+            else:
+                ctx.violation(rule, key, "cannot tell the role of the buffer created in %s" % fn, loc=w.site_loc(cs))
+    ctx.floor(rule, 3, "buffer construction sites")
